@@ -158,7 +158,10 @@ class Model:
         changed = set()
         force = set()
         if which is not None and which != "*":
-            if which not in self.loaded and which not in present:
+            # a name is known if a context of that name is loaded or a file for it exists (an app's files count
+            # also while the app is not configured: they are only not loaded automatically)
+            exists = {ctx for path, (ctx, auto, kind) in FILES.items() if self.visible(path)}
+            if which not in self.loaded and which not in exists:
                 return []  # error logged, nothing happens
             changed.add(which)
             if which in present:
